@@ -24,6 +24,8 @@ PROBES = {
     'plain': 'hello world again and again\n',
     'inline-entity': '[x](/u&ouml "t&copy") ![y](/u&ouml) &ouml &copy\n\n```py&copy\ncode\n```\n',
     'setext': 'Foo\n---\n\nBar\n===\n\n###\n\n    code\n',
+    # references to labels that only OTHER probe documents define: must stay literal whatever was parsed (or failed to parse) before
+    'uses-ref': '[ref] and [ent] and ![ref][]\n',
     'heading-last': 'text\n\n> ## Quoted title ##\n\n# Release notes\n',        # leaves the scratch state of a heading WITH text behind
     # every construct in its EMPTY spelling: scratch state that a reader fills only when there is something to put in shows here
     'empties': '### ###\n\n# #\n\n##\n\n```\n```\n\n-\n\n>\n\n~~~ \n~~~\n\n1.\n\n| |\n|-|\n',
@@ -180,14 +182,16 @@ def residue(W):
     return r
 
 
+# every failing document registers link reference definitions before it fails (a definition is known as soon as the block
+# phase has read it): what a failed parse leaves behind must not reach the next document
 FAIL_TEXT = {
-    'block-start': 'para `c` [ref]\n\n@@ boom\n\n[ref]: /leak\n',
-    'block-start-in-quote': '> a `c`\n>\n> @@ boom\n',
-    'span-find-before-core': 'x `code` y @@ z\n',
-    'span-find-between': 'x `code` y @@ z\n',
-    'span-find-after-code': 'x `code` y @@ z\n',
-    'span-constructor': 'x `code` y @@ z\n',
-    'render-method': 'x `code` y @@ z\n',
+    'block-start': '[ref]: /leak "leaked"\n[ent]: /leak2\n\npara `c` [ref]\n\n@@ boom\n',
+    'block-start-in-quote': '> [ref]: /leak\n>\n> a `c`\n>\n> @@ boom\n',
+    'span-find-before-core': 'x `code` y @@ z\n\n[ref]: /leak "leaked"\n[ent]: /leak2\n',
+    'span-find-between': 'x `code` y @@ z\n\n[ref]: /leak "leaked"\n[ent]: /leak2\n',
+    'span-find-after-code': 'x `code` y @@ z\n\n[ref]: /leak "leaked"\n[ent]: /leak2\n',
+    'span-constructor': 'x `code` y @@ z\n\n[ref]: /leak "leaked"\n[ent]: /leak2\n',
+    'render-method': 'x `code` y @@ z\n\n[ref]: /leak "leaked"\n[ent]: /leak2\n',
 }
 
 
@@ -273,7 +277,7 @@ def replay_history(rec, fresh_tab, idx):
             drift.append('residue at quiescent point: %s' % res)
         # probes: self-contained calls compared with a fresh interpreter
         import functools
-        order = ['plain', 'setext', 'composite', 'heading-last', 'empties', 'inline-entity'] if idx % 2 else ['plain', 'inline-entity', 'empties', 'setext', 'composite', 'heading-last', 'empties']
+        order = ['uses-ref', 'plain', 'setext', 'composite', 'uses-ref', 'heading-last', 'empties', 'inline-entity'] if idx % 2 else ['uses-ref', 'plain', 'inline-entity', 'empties', 'setext', 'composite', 'heading-last', 'empties']
         kinds = ['Html', ['Plain', 'GithubWiki', 'MathJax', 'LaTeX', 'Markdown', 'XWiki'][idx % 6]]
         for pname in order:
             for kind in kinds if pname != 'plain' else ['Html']:
